@@ -220,8 +220,12 @@ def rule_c(ctx):
     # dropped examples are skipped, others yielded unchanged
     for cmp_ in cmps:
         par = A.parent(cmp_)
+        neg = False
+        while isinstance(par, ast.UnaryOp) and isinstance(par.op, ast.Not):
+            neg = not neg
+            par = A.parent(par)
         if isinstance(par, ast.If):
-            is_ = isinstance(cmp_.ops[0], ast.Is)
+            is_ = isinstance(cmp_.ops[0], ast.Is) != neg
             drop = par.body if is_ else par.orelse
             keep = par.orelse if is_ else par.body
             loopvar = A.src(cmp_.left)
@@ -262,7 +266,8 @@ def rule_c(ctx):
         raise AnalysisError('anchor vanished: PrefetchDataset._single_thread_prefetch')
     wraps = [n for n in A.walk_local(st.node) if isinstance(n, ast.Call) and A.dotted(n.func) == 'CatchExceptionDataset']
     ok = len(wraps) == 1 and any(kw.arg == 'exceptions' for kw in wraps[0].keywords) and A.is_self_attr(wraps[0].args[0], INPUT_ATTR) \
-        and any('catch_filter_exception' in A.src(t) and b for t, b in flow.guards_of(wraps[0], st.node))
+        and any(A.is_self_attr(A.strip_not(t)[0], 'catch_filter_exception') and (b != A.strip_not(t)[1])
+                for t, b in flow.guards_of(wraps[0], st.node))
     rep.ob('C1', 'core.PrefetchDataset._single_thread_prefetch::wraps-input-in-catch-iff-configured', ok, st.node,
            '' if ok else 'on the single-thread path the input must be wrapped in CatchExceptionDataset(exceptions=<selection>) '
            'exactly when catch_filter_exception is set')
